@@ -230,7 +230,7 @@ func (p *Prog) AllFuncs(short string, visit func(*ssa.Function)) {
 			return
 		}
 		seen[f] = true
-		visit(f)
+		withoutHelpers(func() { visit(f) })
 		for _, a := range f.AnonFuncs {
 			rec(a)
 		}
